@@ -362,3 +362,31 @@ Definition PX_kinds (xi : xinput) (o : obs) : bool :=
    hook is named, the index) and the clauses by kind *)
 Definition PX (xi : xinput) (o : obs) : bool :=
   P (to_input xi) o && P_files (to_input xi) o && PX_kinds xi o.
+
+(* ==================================================================== *)
+(* ---- the hook set does not depend on WHAT a valid configuration declares (seeded change C20-8) ---- *)
+(* ==================================================================== *)
+(* "At start the set of hooks is exactly the files under the hooks directory that carry an execute
+   bit, ...": a condition on the file, its name and its place - nothing else.  A hook "whose
+   --config run fails or prints an invalid configuration makes initialization fail"; a VALID
+   configuration, whatever it declares (no binding at all, one, many), changes nothing.  So after a
+   successful Init, file by file: a file that meets the conditions is in GetHookNames() exactly
+   once and GetHook finds it under its relative path, bound to that very file; a file that does not
+   meet them is not in GetHookNames(); and GetHookNames() holds nothing but hooks of the statement.
+   The predicate never looks at the scenario (i_beh): the answer to --config is not an input of it. *)
+Definition P_hook_set (i : input) (o : obs) : bool :=
+  match o_init o with
+  | None => true
+  | Some io =>
+      if N.eqb (io_status io) 0
+      then forallb (fun e => let p := entry_path e in
+                      if entry_is_hook e
+                      then Nat.eqb (count p (io_names io)) 1 && bound_to (o_index o) p (wd_of i ++ 47 :: p)
+                      else Nat.eqb (count p (io_names io)) 0)
+                   (all_files (i_children i))
+           && subset (io_names io) (spec_hooks (i_children i))
+      else true
+  end.
+
+(* the whole predicate with the configurations in the input *)
+Definition PC (xi : xinput) (o : obs) : bool := PX xi o && P_hook_set (to_input xi) o.
